@@ -209,6 +209,9 @@ pub fn set_park_background_only(on: bool) {
 /// Real-time waits for a thread to show up are multiplied by this: a verdict "the thread never arrived" is only given
 /// after the case was repeated with more patience (a loaded machine may not schedule a thread for seconds).
 pub static PATIENCE: std::sync::atomic::AtomicU64 = std::sync::atomic::AtomicU64::new(1);
+/// virtual nanoseconds that pass before every step of the RDB loader (0 = loading is instantaneous), and the steps counted
+pub static LOAD_TICK_NS: std::sync::atomic::AtomicU64 = std::sync::atomic::AtomicU64::new(0);
+pub static LOAD_TICKS: std::sync::atomic::AtomicU64 = std::sync::atomic::AtomicU64::new(0);
 
 pub fn wait_parked_background(timeout_ms: u64) -> Option<ParkedThread> {
     let timeout_ms = timeout_ms * if timeout_ms >= 1000 { PATIENCE.load(Ordering::SeqCst) } else { 1 };
@@ -374,6 +377,15 @@ fn hook(point: u32, arg: u64) -> u64 {
                 0
             }
         });
+    }
+    if point == vh::RDB_LOAD_STEP {
+        // loading takes (virtual) time if the checker says so: the clock moves before every opcode the loader reads
+        let t = LOAD_TICK_NS.load(Ordering::SeqCst);
+        if t > 0 {
+            LOAD_TICKS.fetch_add(1, Ordering::SeqCst);
+            let _ = vtime::tick(t);
+        }
+        return 0;
     }
     if point == vh::RDB_WRITE {
         let n = WRITE_COUNT.fetch_add(1, Ordering::SeqCst);
